@@ -234,7 +234,8 @@ theorem C15_flags_monotone (w : World) (evs : List Ev) (f : Family) (b : Bool)
   run_mono evs w f b h
 
 /-- **No context leak.**  Start from a server with an empty context table and pull enabled, a fresh
-    connection with any `use_pull_operations`; run any history in which the server keeps supporting pull and
+    connection with any `use_pull_operations`; run any history in which the server keeps supporting pull (it may
+    remove namespaces under running enumerations: the failing Pull is followed by CloseEnumeration) and
     the calls are those of the six generator methods (any arguments, any interleaving of next / close / drop /
     throw on any number of generators).  Then every enumeration context the server holds is held by a
     generator that is suspended inside its pull loop; in particular, once no generator is suspended there
@@ -273,7 +274,7 @@ theorem C15_no_context_leak (s : State) (u : Option Bool) (evs : List Ev)
     yielded exactly that — nothing lost, duplicated or reordered, no matter what the other generators did to
     the shared server in between. -/
 theorem C15_interleaved_generators_equal_traditional (s : State) (u : Option Bool) (evs : List Ev)
-    (hs : s.ctxs = []) (hd : s.disabled = false) (hev : ∀ ev ∈ evs, Allowed ev) (j : Nat) :
+    (hs : s.ctxs = []) (hd : s.disabled = false) (hev : ∀ ev ∈ evs, AllowedI ev) (j : Nat) :
     let gh := (runG (fresh s u) {} evs).2
     gh.got j <+: gh.exp j ∧ (gh.stopped j = true → gh.got j = gh.exp j) ∧
     (j < (runW (fresh s u) evs).1.n → gh.exp j = gh.trad j ∨ gh.exp j = gh.comp j) := by
@@ -424,5 +425,14 @@ example : ∀ ev ∈ demoHistory, CallOk ev := by decide
 example : let gh := (runG (fresh { nss := [0] } none) {} demoHistory).2
     gh.got 0 = [6, 10, 14, 18, 22] ∧ gh.stopped 0 = true ∧ gh.got 1 = [6, 10] ∧ gh.stopped 1 = false ∧
     gh.exp 1 = [6, 10, 14, 18, 22] := by decide
+
+-- namespace removed under a running enumeration: the next Pull is refused (CIM_ERR_INVALID_NAMESPACE), the
+-- `finally` clause closes the enumeration, nothing stays on the server (covered by C15_no_context_leak)
+def rmnsHistory : List Ev :=
+  [.call { demoArgs with ns := 1, max := .int 1 }, .next 0, .removeNs 1, .next 0]
+example : ∀ ev ∈ rmnsHistory, Allowed ev := by decide
+example : (runW (fresh { nss := [0, 1] } none) rmnsHistory).2 = [.ok, .yield 6, .ok, .raise (.cimError 3)] ∧
+    (runW (fresh { nss := [0, 1] } none) (rmnsHistory.take 3)).1.conn.srv.ctxs.map (·.id) = [0] ∧
+    (runW (fresh { nss := [0, 1] } none) rmnsHistory).1.conn.srv.ctxs = [] := by decide
 
 end C15
